@@ -67,7 +67,7 @@ def glob_table(ctx, alphabet, n, name):
 
 
 # ------------------------------------------------------------------------------------------------ scans
-META_COMPS = ["a", "b", "ab", "a+b", "a(b", "b$", "gen", "gen_x", "tests", "test_a"]
+META_COMPS = ["a", "b", "ab", "a+b", "a(b", "b$", "gen", "gen_x", "tests", "test_a", "cafe\u0301", "pru\u0308f"]   # the last two: decomposed (non-NFC) spellings
 
 
 def exclusion_for(rng, tree, base_placeholder="@BASE@"):
@@ -324,7 +324,7 @@ def tree_stream(ctx: Ctx, s, n, rng):
     while done < n and ctx.left() > 20 and not ctx.violations:
         cases = []
         for _ in range(min(500, n - done)):
-            tree = sc.gen_tree(rng, comps=META_COMPS)
+            tree = sc.gen_tree(rng, comps=META_COMPS, pycache=True)
             with_ext = rng.random() < 0.5
             sc.fill_sources(rng, tree, externals=with_ext)
             dirs = sorted(p for p, v in tree.items() if v is None)
